@@ -474,6 +474,9 @@ def run_case(case, servertype=None, keep=False):
             live.join_oneway_threads(CEILING)
             for o in case["ops"]:
                 if "_tok" in o:
+                    # (a oneway request that went out over a connection which was dropped afterwards is served by ANOTHER server thread
+                    #  than the recovery call: wait for it - the ceiling only guards against a request that is never carried out)
+                    live.wait_for(lambda: EXEC.get(o["_tok"], 0) >= o["_want"], CEILING)
                     with LOCK:
                         got = EXEC.get(o["_tok"], 0)
                     if got != o["_want"]:
